@@ -2227,8 +2227,17 @@ def h_merge_fold(ctx, p):
         if not (m in ends or z.entails_le(b0, f0)):
             ok = False
     ctx.req('POL', ok, nm, 'fold may return only after every part was driven to its end', p)
-    ctx.req('OUT', not [e for e in p.events if e[0] in ('read', 'write', 'len', 'store')], nm,
-            'the operands must not be modified', p)
+    # every element a plain cursor advanced over must have reached the closure: counted in the STATE (ghost
+    # counters -- the event log of a path that went through a loop head is that of the first arrival there)
+    plain = [m for m, q in roles.items() if q[0] == 'plain']
+    if len(plain) == 1 and len(roles) == 1 and p.E.track_adv:
+        ga = p.st.ghost.get(('adv', plain[0]))
+        gc = p.st.ghost.get(('calls',))
+        ta = ga[0] if ga else 0
+        tc = gc[0] if gc else 0
+        ctx.req('POL', z.entails_eq(ta, tc), nm,
+                'the closure must have been called exactly once for each element the iterator advanced over '
+                '(advanced: %s, calls: %s)' % (ta, tc), p)
 
 
 LOSSLESS = ('IntoIterator::into_iter', 'Iterator::copied', 'Iterator::cloned', 'Iterator::by_ref')
@@ -2448,6 +2457,10 @@ def h_pop_fold(ctx, p):
     ms = p.st.maps.get(mid) if mid else None
     ctx.req('POL', ms is not None and (ms.dead or p.z.entails_eq(ms.len, 0)), nm,
             'fold may return only when no element is left in the iterator', p)
+
+
+# fold roots of single-cursor iterators: advances and closure calls are counted in the state
+ADV_TRACK = set()
 
 
 # roots in which the user callable must be called at most once per stored element (tracked by the interpreter:
@@ -2748,6 +2761,7 @@ for _path, _how in ((ITER, 'pair'), (ITERMUT, 'pair'), (KEYS, 'key'), (VALUES, '
     ITER_HOOKS[(_path, IT, 'fold')] = ({'C09'}, cursor_fold_iteration(_how), {'folded'})
     CLASSES[(_path, IT, 'fold')] = {'folded-all'}
     OPTIONAL.add((_path, IT, 'fold'))
+    ADV_TRACK.add((_path, IT, 'fold'))
 for _path in (ITER, KEYS, VALUES, SETITER):
     HANDLERS[(_path, 'Clone', 'clone')] = ({'C09'}, h_iter_clone)
 for _path, _how in ((DRAIN, 'owned-pair'), (SETDRAIN, 'owned-key')):
@@ -2765,6 +2779,7 @@ for _path, _how in ((DRAIN, 'owned-pair'), (SETDRAIN, 'owned-key')):
     ITER_HOOKS[(_path, IT, 'fold')] = ({'C10'}, cursor_fold_iteration(_how), {'folded'})
     CLASSES[(_path, IT, 'fold')] = {'folded-all'}
     OPTIONAL.add((_path, IT, 'fold'))
+    ADV_TRACK.add((_path, IT, 'fold'))
     HANDLERS[(_path, IT, 'count')] = ({'C10'}, h_cursor_count('count'))
     OPTIONAL.add((_path, IT, 'count'))
 for _path in (INTOKEYS, INTOVALUES, SETINTOITER):
